@@ -648,13 +648,21 @@ static bool has_reciprocal_power_of_sum(const Basic &e)
 // the whole battery on one input expression e with exact model m
 static void check_expand(const RCP<const Basic> &e, const Model &m, const std::string &recipe, Ctx &c)
 {
+    // everything here except the two expand() calls is the check's own exact arithmetic (fractions of Laurent
+    // dictionaries can blow up for 16th powers): a wall-limit overrun there is "not judged", not a library hang
+    c.oracle(true);
     if (contains_nonfinite(*e) || !m.ok) {
         c.count(K_NONFINITE);
         c.outcome("input-nonfinite");
-        if (contains_nonfinite(*e) != !m.ok)
+        // tree non-finite while the exact model is finite: the oracle (or a constructor) is wrong -> self-check alarm.
+        // The other direction is legitimate: the constructors need not see that a base is identically zero
+        // (x + 1/x - (x + 1/x) keeps a nested sum), so 1/0 can hide in a finite-looking tree; such an input has no
+        // value and the property says nothing about it: counted, not judged.
+        if (contains_nonfinite(*e) && m.ok)
             c.violation("oracle-selfcheck:pole-disagreement",
-                        recipe + " = " + sstr(e) + ": the constructed tree is " + (contains_nonfinite(*e) ? "" : "not ")
-                            + "non-finite but the exact model " + (m.ok ? "is finite" : "divides by zero"));
+                        recipe + " = " + sstr(e) + ": the constructed tree is non-finite but the exact model is finite");
+        else if (!contains_nonfinite(*e))
+            c.outcome("input-hidden-division-by-zero");
         return;
     }
     const std::string icls = input_class(*e);
@@ -682,8 +690,11 @@ static void check_expand(const RCP<const Basic> &e, const Model &m, const std::s
     RCP<const Basic> r;
     c.eval();
     try {
+        c.oracle(false);
         r = expand(e);
+        c.oracle(true);
     } catch (SymEngineException &x) {
+        c.oracle(true);
         c.count(K_REFUSED);
         c.outcome(std::string("throw:") + x.what());
         c.violation("expand:throws:" + icls, "expand(" + recipe + ") throws " + x.what());
@@ -717,7 +728,9 @@ static void check_expand(const RCP<const Basic> &e, const Model &m, const std::s
     // 3. idempotence
     c.eval();
     c.count(K_IDEM);
+    c.oracle(false);
     RCP<const Basic> r2 = expand(r);
+    c.oracle(true);
     std::string kr2 = key(*r2);
     if (kr2 != kr || !eq(*r, *r2)) {
         c.violation(std::string("expand:not-idempotent:")
@@ -844,13 +857,17 @@ int main(int argc, char **argv)
             cl.name = "expand:T" + std::to_string(L);
             cl.n = (long long)T.size();
             cl.counter_names = cn;
+            cl.hang_s = 60; // the exact model of a 16th power of a three-term fraction takes about a minute
             cl.desc = [&](long long i) { return "expand(" + tr_recipe(T[i]) + ")"; };
             cl.crash_sig = [&](long long i, const std::string &oc) {
                 return "expand:" + oc + ":" + std::string(T[i].op == T_POW ? "pow" : T[i].op == T_ADD ? "add" : "mul");
             };
             cl.body = [&](long long i, Ctx &c) {
                 RCP<const Basic> e = tr_apply(T[i]);
-                check_expand(e, tr_model(T[i]), tr_recipe(T[i]), c);
+                c.oracle(true);
+                Model tm = tr_model(T[i]);
+                check_expand(e, tm, tr_recipe(T[i]), c);
+                c.oracle(false);
             };
             run_cases(cl);
             Rn.counters["transitions_into_depth_" + std::to_string(L)] = T.size();
